@@ -29,17 +29,9 @@ def check(run):
     can = D.canary(run, "fitting/combine_DL.py", "main", C.r1_contract)
     if can is False:
         raise RuntimeError("canary verified: engine vacuous on combine_DL R1")
-    found = False
-    try:
-        B = importlib.import_module("checks.C06_bounded")
-    except ImportError:
-        B = None
-        run.notes.append("bounded stand-in module checks/C06_bounded.py not present")
-    if B is not None:
-        found = bool(B.bounded(run))
-    if failed_all and not found:
-        from checks.C14 import report_unproved
-        report_unproved(run, failed_all, False, "combine_DL.main")
+    from checks import _wrap
+    found, B = _wrap.run_bounded(run, "checks.C06_bounded")
+    _wrap.report_unproved(run, failed_all, found, "combine_DL.main")
     run.assume("A-float", "A-ext (numpy idioms as modelled in pyvc/models.py)", "A-shell (concatenation of per-rank files)", "lemma library: counting facts of masks")
     run.trust("pyvc", "z3 5.1.0")
     return run.finish("proof", META["text"], CHECKER)
